@@ -1,0 +1,127 @@
+//go:build verif
+
+package keyproof
+
+// A Byzantine prover for the simulation harness. The building blocks of the prover are
+// unexported, so a prover that deviates before the challenge is computed has to live
+// inside the package; it is compiled only with the build tag verif.
+
+import (
+	"github.com/privacybydesign/gabi/big"
+	"github.com/privacybydesign/gabi/internal/common"
+	"github.com/privacybydesign/gabi/zkproof"
+)
+
+// verifDegenerateIsSquareCommit mirrors isSquareProofStructure.commitmentsFromSecrets, but it
+// does not need (and does not have) square roots of the bases: the "roots" are all 1
+// and the commitment to N is the degenerate value 0.
+func verifDegenerateIsSquareCommit(s *isSquareProofStructure, g zkproof.Group, list []*big.Int) ([]*big.Int, isSquareProofCommit) {
+	commit := isSquareProofCommit{
+		squares:         make([]pedersenCommit, len(s.squares)),
+		roots:           make([]pedersenCommit, len(s.squares)),
+		rootRangeCommit: make([]rangeCommit, len(s.squares)),
+		rootValidCommit: make([]multiplicationProofCommit, len(s.squares)),
+	}
+	zero := func() *big.Int { return big.NewInt(0) }
+
+	for i, val := range s.squares {
+		list, commit.squares[i] = s.squaresPedersen[i].commitmentsFromSecrets(g, list, val)
+	}
+	for i := range s.squares {
+		// no square root known or needed
+		list, commit.roots[i] = s.rootsRep[i].commitmentsFromSecrets(g, list, big.NewInt(1))
+	}
+
+	// degenerate commitment to N
+	off := len(list)
+	list, commit.n = s.nPedersen.commitmentsFromSecrets(g, list, s.n)
+	commit.n.commit = zero() // this is what ends up in proof.BasesValidProof.NProof.Commit
+	list[off] = zero()       // the commitment itself
+	list[off+1] = zero()     // 0^challenge * g^.. * h^.. = 0
+
+	var baseList []zkproof.BaseLookup
+	var secretList []zkproof.SecretLookup
+	for i := range commit.squares {
+		baseList = append(baseList, &commit.squares[i])
+		secretList = append(secretList, &commit.squares[i])
+	}
+	for i := range commit.roots {
+		baseList = append(baseList, &commit.roots[i])
+		secretList = append(secretList, &commit.roots[i])
+	}
+	baseList = append(baseList, &commit.n)
+	secretList = append(secretList, &commit.n)
+	baseList = append(baseList, &g)
+	bases := zkproof.NewBaseMerge(baseList...)
+	secrets := zkproof.NewSecretMerge(secretList...)
+
+	list = append(list, s.n)
+	list = append(list, s.squares...)
+
+	list = s.nRep.CommitmentsFromSecrets(g, list, &bases, &secrets)
+	list[len(list)-1] = zero() // (N^-1 g^n)^c ... with N = 0 is rebuilt as 0
+	for i := range s.squaresRep {
+		list = s.squaresRep[i].CommitmentsFromSecrets(g, list, &bases, &secrets)
+	}
+	for i := range s.rootsRange {
+		list, commit.rootRangeCommit[i] = s.rootsRange[i].commitmentsFromSecrets(g, list, &bases, &secrets)
+	}
+	for i := range s.rootsValid {
+		off := len(list)
+		list, commit.rootValidCommit[i] = s.rootsValid[i].commitmentsFromSecrets(g, list, &bases, &secrets)
+		// entries: [modMult commit, modMult representation, multRepresentation, 80 range commitments]
+		// the multiplication relation s_i = r_i^r_i * N^-k * h^.. has base N = 0 on the right hand side
+		list[off+2] = zero()
+	}
+	return list, commit
+}
+
+// VerifBuildProofDegenerateCommitment mirrors ValidKeyProofStructure.BuildProof; the only difference is the
+// call to verifDegenerateIsSquareCommit.
+func VerifBuildProofDegenerateCommitment(s *ValidKeyProofStructure, Pprime, Qprime *big.Int) ValidKeyProof {
+	GroupPrime := findSafePrime(s.n.BitLen() + 2*rangeProofEpsilon + 10)
+	g, gok := zkproof.BuildGroup(GroupPrime)
+	if !gok {
+		panic("group")
+	}
+	P := new(big.Int).Add(new(big.Int).Lsh(Pprime, 1), big.NewInt(1))
+	Q := new(big.Int).Add(new(big.Int).Lsh(Qprime, 1), big.NewInt(1))
+
+	list, PprimeSecret := s.pprime.commitmentsFromSecrets(g, nil, Pprime)
+	list, QprimeSecret := s.qprime.commitmentsFromSecrets(g, list, Qprime)
+	list, PSecret := s.p.commitmentsFromSecrets(g, list, P)
+	list, QSecret := s.q.commitmentsFromSecrets(g, list, Q)
+	PQNRel := newSecret(g, "pqnrel", new(big.Int).Mod(new(big.Int).Mul(PSecret.hider.secretv, QSecret.secretv.secretv), g.Order))
+
+	bases := zkproof.NewBaseMerge(&g, &PSecret, &QSecret, &PprimeSecret, &QprimeSecret)
+	secrets := zkproof.NewSecretMerge(&PSecret, &QSecret, &PprimeSecret, &QprimeSecret, &PQNRel)
+
+	var PprimeIsPrimeCommit, QprimeIsPrimeCommit primeProofCommit
+	var QSPPcommit quasiSafePrimeProductCommit
+	var BasesValidCommit isSquareProofCommit
+	list = append(list, GroupPrime)
+	list = append(list, s.n)
+	list = s.pPprimeRel.CommitmentsFromSecrets(g, list, &bases, &secrets)
+	list = s.qQprimeRel.CommitmentsFromSecrets(g, list, &bases, &secrets)
+	list = s.pQNRel.CommitmentsFromSecrets(g, list, &bases, &secrets)
+	list, PprimeIsPrimeCommit = s.pprimeIsPrime.commitmentsFromSecrets(g, list, &bases, &secrets)
+	list, QprimeIsPrimeCommit = s.qprimeIsPrime.commitmentsFromSecrets(g, list, &bases, &secrets)
+	list, QSPPcommit = quasiSafePrimeProductBuildCommitments(list, Pprime, Qprime)
+	list, BasesValidCommit = verifDegenerateIsSquareCommit(&s.basesValid, g, list) // <-- the forgery
+
+	challenge := common.HashCommit(list, false)
+
+	return ValidKeyProof{
+		GroupPrime:         GroupPrime,
+		PQNRel:             PQNRel.buildProof(g, challenge),
+		PProof:             s.p.buildProof(g, challenge, PSecret),
+		QProof:             s.q.buildProof(g, challenge, QSecret),
+		PprimeProof:        s.pprime.buildProof(g, challenge, PprimeSecret),
+		QprimeProof:        s.qprime.buildProof(g, challenge, QprimeSecret),
+		Challenge:          challenge,
+		PprimeIsPrimeProof: s.pprimeIsPrime.buildProof(g, challenge, PprimeIsPrimeCommit, &secrets),
+		QprimeIsPrimeProof: s.qprimeIsPrime.buildProof(g, challenge, QprimeIsPrimeCommit, &secrets),
+		QSPPproof:          quasiSafePrimeProductBuildProof(Pprime, Qprime, challenge, QSPPcommit),
+		BasesValidProof:    s.basesValid.buildProof(g, challenge, BasesValidCommit),
+	}
+}
